@@ -187,10 +187,15 @@ def match_known(v, known):
     return None
 
 
+CTX = dict(seed=None, tier=None, quiet=False)      # set by main(): recorded in every replay file
+
+
 def write_replay(pid, kind, payload):
+    if CTX.get("quiet"):
+        return "(replay run)"
     os.makedirs(REPLAYS, exist_ok=True)
     p = os.path.join(REPLAYS, "%s_%s_%d.json" % (pid, kind, int(time.time() * 1000) % 10 ** 10))
-    payload = dict(payload, property=pid, kind=kind,
+    payload = dict(payload, property=pid, kind=kind, seed=CTX.get("seed"), tier=CTX.get("tier"),
                    replay_cmd="python3 tools/check.py %s --replay %s" % (pid, os.path.relpath(p, ROOT)))
     with open(p, "w") as fh:
         json.dump(payload, fh, indent=1, default=str)
@@ -220,6 +225,9 @@ class Result:
         ev = dict(property_id=s.pid, tier=s.tier, seed=s.seed, level=level, coverage=s.cov,
                   assumptions=s.assumptions, wall_s=round(time.time() - s.t0, 2),
                   violations=len(s.violations), known_findings=list(s.known_hits.keys()), notes=s.notes)
+        if CTX.get("quiet"):        # a replay run: do not touch the evidence file, do not print verdict lines
+            s.replay_verdict = [(d, ni) for _, d, ni in s.violations]
+            return 1 if s.violations else 0
         os.makedirs(EVID, exist_ok=True)
         with open(os.path.join(EVID, s.pid + ".json"), "w") as fh:
             json.dump(ev, fh, indent=1, default=str)
@@ -249,6 +257,8 @@ def main():
     if a.pid not in props.PROPS:
         print("unknown property", a.pid)
         sys.exit(2)
+    CTX.update(seed=seed, tier=a.tier)
+    props.check.CTX.update(seed=seed, tier=a.tier)      # `props` imports this file as module `check`
     res = Result(a.pid, a.tier, seed)
     rc = props.run_property(a.pid, a.tier == "thorough", seed, res)
     vlib.prune_cache()
